@@ -35,7 +35,7 @@ ASSUMPTIONS = ["yield points are source lines of the recoco hand-off "
                "is pending counts as 'relied on the polling timeout'",
                "condition variables inside queue.Queue are not controlled "
                "(they never block here)"]
-REQUIRED = ["schedules", "distinct_interleavings", "preempting_schedules",
+REQUIRED = ["lock_programs_whose_tasks_nobody_else_refers_to", "schedules", "distinct_interleavings", "preempting_schedules",
             "calllater_functions_checked", "wakes_checked", "sync_sections",
             "sync_sections_that_take_longer_than_the_poll_interval",
             "wakes_of_a_task_that_was_queued_by_its_own_doing",
@@ -668,10 +668,16 @@ def run_lock_program (case, rep):
   for tid, steps in enumerate(case["tasks"]):
     t = rc.Task(target=prog, args=(tid, steps))
     t.start(sched, fast=True)
-    tasks.append(t)
+    # (fire and forget: nobody but the scheduler - and, while it waits, the
+    #  lock - knows a task that was started like this)
+    if not case.get("forget"): tasks.append(t)
+    del t
+  if case.get("forget"): rep.count("lock_programs_whose_tasks_nobody_else_refers_to")
   n = 0
   while sched._ready and n < 5000:
     sched.cycle(); n += 1
+    if case.get("forget") and n % 4 == 0:
+      import gc; gc.collect()
   rc.defaultScheduler = saved
   rep.count("lock_programs")
   if any(len(e) == 4 and e[1] == "rel" and e[3] for e in log):
@@ -716,7 +722,9 @@ def gen_lock_programs (ntasks, nlocks, shard, nshards):
   for combo in itertools.product(progs, repeat=ntasks):
     i += 1
     if i % nshards != shard: continue
-    yield dict(kind="lock", nlocks=nlocks, tasks=[list(c) for c in combo])
+    case = dict(kind="lock", nlocks=nlocks, tasks=[list(c) for c in combo])
+    if i % 5 == 0: case["forget"] = True
+    yield case
 
 
 def gen_lock_sample (rng, n):
@@ -732,6 +740,7 @@ def gen_lock_sample (rng, n):
     if rng.random() < 0.3:
       case["locked0"] = True
       tasks[-1] = [["y"], ["R", 0]] + tasks[-1][:1]
+    if rng.random() < 0.25: case["forget"] = True
     if rng.random() < 0.3:
       # one holder, everybody else queues up behind it
       tasks[0] = [["a", 0, True], ["y"], ["y"], ["r", 0]]
@@ -746,7 +755,7 @@ def do_lock_case (case, rep):
     rep.violation("C07 harness-visible exception",
                   traceback.format_exc()[-900:], case)
     nt = True
-  rep.case(repr((case["tasks"], case.get("locked0"))).encode() + bytes([case["nlocks"]]),
+  rep.case(repr((case["tasks"], case.get("locked0"), case.get("forget"))).encode() + bytes([case["nlocks"]]),
            nontrivial=bool(nt))
 
 
